@@ -356,26 +356,31 @@ def selftest():
 
 
 def contexts(tier, seed):
+    """Scopes.  Cost is dominated by formulaic itself (6-9 ms per fit / application), so the tiers are cut by the
+    number of training columns per output type; every listed combination is enumerated completely."""
     a_small = num_events("a", a_VALUES, 1) + [("a", "num", [1.5, 0.0])]
+    full3 = ["z", "y", "x"]
     if tier == "quick":
+        others = [t for t in TRAININGS if t not in (["y", "x"], full3)]
+        extra = others[seed % len(others)]
+        pandas_tr = LEVEL_SETS + ([extra] if extra not in LEVEL_SETS else [])
         f = {"outputs": ["pandas", "numpy", "sparse"],
-             "trainings": {"pandas": TRAININGS, "numpy": REPRESENTATIVES, "sparse": REPRESENTATIVES},
+             "trainings": {"pandas": pandas_tr, "numpy": [full3], "sparse": [full3]},
              "ev1": {"A": text_events("A", "xyzw", 2) + A_NUMERIC, "a": a_small + a_TEXT[:2]}}
         second = {"A": [("A", "text", ["x"]), ("A", "text", ["w"]), ("A", "text", ["w", "x"]), ("A", "text", ["z", "y"]),
                         A_NUMERIC[0]],
                   "a": a_small[:3] + a_TEXT[:1]}
         first = {"A": text_events("A", "xyzw", 2) + A_NUMERIC[:1], "a": a_small[:3] + a_TEXT[:1]}
-        others = [t for t in TRAININGS if t not in REPRESENTATIVES]
-        extra = others[seed % len(others)]
-        f["trainings"]["numpy"] = f["trainings"]["sparse"] = REPRESENTATIVES + [extra]
-        h = [{"outputs": ["pandas"], "trainings": REPRESENTATIVES, "ev1": first, "ev2": second, "name": "history"},
+        h = [{"outputs": ["pandas"], "trainings": [["y", "x"], full3], "ev1": first, "ev2": second, "name": "history"},
              {"outputs": ["pandas"], "trainings": [extra], "ev1": first, "ev2": second, "name": "history-seed-slice"}]
     else:
-        f = {"outputs": ["pandas", "numpy", "sparse"], "trainings": {o: TRAININGS for o in ("pandas", "numpy", "sparse")},
+        f = {"outputs": ["pandas", "numpy", "sparse"],
+             "trainings": {"pandas": TRAININGS, "numpy": LEVEL_SETS, "sparse": LEVEL_SETS},
              "ev1": {"A": text_events("A", "xyzw", 3) + A_NUMERIC, "a": num_events("a", a_VALUES, 3) + a_TEXT}}
         both = {"A": text_events("A", "xyzw", 2) + A_NUMERIC[:2], "a": a_small + a_TEXT[:2]}
-        h = [{"outputs": ["pandas"], "trainings": LEVEL_SETS, "ev1": both, "ev2": both, "name": "history"},
-             {"outputs": ["numpy", "sparse"], "trainings": REPRESENTATIVES, "ev1": both, "ev2": both,
+        h = [{"outputs": ["pandas"], "trainings": [["x"], ["z"], ["y", "x"], ["z", "y"], full3], "ev1": both, "ev2": both,
+              "name": "history"},
+             {"outputs": ["numpy", "sparse"], "trainings": [["y", "x"], full3], "ev1": both, "ev2": both,
               "name": "history-numpy-sparse"}]
     return f, h
 
